@@ -44,7 +44,11 @@ Inductive frag_shape : src -> Prop :=
 | FSvec x : teq_frag x = true -> plain_src x = true -> frag_shape (SVec x)
 | FSarr n x : teq_frag x = true -> plain_src x = true -> frag_shape (SArray n x)
 | FScompact x : teq_frag x = true -> plain_src x = true -> frag_shape (SCompactT x)
-| FStup ts : forallb teq_frag ts = true -> forallb plain_src ts = true -> frag_shape (STup ts).
+| FStup ts : forallb teq_frag ts = true -> forallb plain_src ts = true -> frag_shape (STup ts)
+| FSopt x : teq_frag x = true -> plain_src x = true -> frag_shape (SOpt x)
+| FSres a b : teq_frag a = true -> teq_frag b = true -> plain_src a = true -> plain_src b = true -> frag_shape (SRes a b)
+| FScow x : teq_frag x = true -> plain_src x = true -> frag_shape (SCow x)
+| FSrange x : teq_frag x = true -> plain_src x = true -> frag_shape (SRange x).
 
 Lemma frag_cases c : teq_frag c = true -> plain_src c = true -> frag_shape c.
 Proof.
@@ -55,6 +59,10 @@ Proof.
   - apply FSarr; assumption.
   - apply FStup; assumption.
   - apply FScompact; assumption.
+  - apply FSopt; assumption.
+  - apply andb_prop in H as [Ha Hb]. apply andb_prop in Hp as [Hpa Hpb]. apply FSres; assumption.
+  - apply FScow; assumption.
+  - apply FSrange; assumption.
 Qed.
 
 (** ** spine sub-terms are components *)
@@ -65,9 +73,11 @@ Proof.
   destruct t; cbn [spine] in Hc; cbn [src_size] in Hs;
     try (destruct Hc as [<-|[]]; left; reflexivity);
     try (destruct Hc as [<-|Hc]; [left; reflexivity|right; apply (IH t); [lia|exact Hc]]).
-  destruct Hc as [<-|Hc]; [left; reflexivity|right].
-  apply in_flat_map in Hc as (x & Hx & Hc). apply in_flat_map. exists x. split; [exact Hx|].
-  apply (IH x); [|exact Hc]. pose proof (sizes_In _ _ Hx). change (S (sizes ts) <= S n)%nat in Hs. lia.
+  - destruct Hc as [<-|Hc]; [left; reflexivity|right].
+    apply in_flat_map in Hc as (x & Hx & Hc). apply in_flat_map. exists x. split; [exact Hx|].
+    apply (IH x); [|exact Hc]. pose proof (sizes_In _ _ Hx). change (S (sizes ts) <= S n)%nat in Hs. lia.
+  - destruct Hc as [<-|Hc]; [left; reflexivity|right]. apply in_app_or in Hc as [Hc|Hc]; apply in_or_app;
+      [left; apply (IH t1); [lia|exact Hc]|right; apply (IH t2); [lia|exact Hc]].
 Qed.
 
 Lemma spine_self t : In t (spine t).
@@ -82,6 +92,17 @@ Lemma frag_arr n x : teq_frag (SArray n x) = true -> teq_frag x = true.
 Proof. cbn [teq_frag closed_src]. intros H. apply orb_prop in H as [H|H]; [apply closed_frag|]; exact H. Qed.
 Lemma frag_compact x : teq_frag (SCompactT x) = true -> teq_frag x = true.
 Proof. cbn [teq_frag closed_src]. intros H. apply orb_prop in H as [H|H]; [apply closed_frag|]; exact H. Qed.
+Lemma frag_opt x : teq_frag (SOpt x) = true -> teq_frag x = true.
+Proof. cbn [teq_frag closed_src]. intros H. apply orb_prop in H as [H|H]; [apply closed_frag|]; exact H. Qed.
+Lemma frag_cow x : teq_frag (SCow x) = true -> teq_frag x = true.
+Proof. cbn [teq_frag closed_src]. intros H. apply orb_prop in H as [H|H]; [apply closed_frag|]; exact H. Qed.
+Lemma frag_range x : teq_frag (SRange x) = true -> teq_frag x = true.
+Proof. cbn [teq_frag closed_src]. intros H. apply orb_prop in H as [H|H]; [apply closed_frag|]; exact H. Qed.
+Lemma frag_res a b : teq_frag (SRes a b) = true -> teq_frag a = true /\ teq_frag b = true.
+Proof.
+  cbn [teq_frag closed_src]. intros H. apply orb_prop in H as [H|H]; apply andb_prop in H as [Ha Hb];
+    [split; apply closed_frag; assumption|split; assumption].
+Qed.
 Lemma frag_tup xs : teq_frag (STup xs) = true -> forall x, In x xs -> teq_frag x = true.
 Proof.
   cbn [teq_frag closed_src]. intros H x Hx. apply orb_prop in H as [H|H]; rewrite forallb_forall in H;
@@ -109,9 +130,11 @@ Proof.
   destruct c; cbn [spine] in HK; cbn [src_size] in Hs;
     try (destruct HK as [<-|[]]; exact Hc);
     try (destruct HK as [<-|HK]; [exact Hc|]; cbn [params_live] in Hc; apply (IH c); [lia|exact Hc|exact HK]).
-  destruct HK as [<-|HK]; [exact Hc|]. cbn [params_live] in Hc. rewrite forallb_forall in Hc.
-  apply in_flat_map in HK as (x & Hx & HK). apply (IH x); [|auto|exact HK].
-  pose proof (sizes_In _ _ Hx). change (S (sizes ts) <= S n)%nat in Hs. lia.
+  - destruct HK as [<-|HK]; [exact Hc|]. cbn [params_live] in Hc. rewrite forallb_forall in Hc.
+    apply in_flat_map in HK as (x & Hx & HK). apply (IH x); [|auto|exact HK].
+    pose proof (sizes_In _ _ Hx). change (S (sizes ts) <= S n)%nat in Hs. lia.
+  - destruct HK as [<-|HK]; [exact Hc|]. cbn [params_live] in Hc. apply andb_prop in Hc as [Ha Hb].
+    apply in_app_or in HK as [HK|HK]; [apply (IH c1)|apply (IH c2)]; (lia || assumption).
 Qed.
 
 (** ** the instances under one argument list determine the open term (up to its instances under
@@ -198,6 +221,42 @@ Section Inj.
       + (* Compact *) injection H as H. unfold cs. cbn [subst_src canon]. f_equal.
         cbn [src_size] in Hs. cbn [plain_src] in Hp, Hp'.
         apply (IH c c'); try assumption; try lia; try (apply frag_compact; assumption).
+        * intros K HK. apply Hg. right. exact HK.
+        * intros K HK. apply Hg'. right. exact HK.
+        * intros i Hi. apply Hl. right. exact Hi.
+        * intros i Hi. apply Hl'. right. exact Hi.
+      + (* Option *) injection H as H. unfold cs. cbn [subst_src canon]. f_equal.
+        cbn [src_size] in Hs. cbn [plain_src] in Hp, Hp'.
+        apply (IH c c'); try assumption; try lia; try (apply frag_opt; assumption).
+        * intros K HK. apply Hg. right. exact HK.
+        * intros K HK. apply Hg'. right. exact HK.
+        * intros i Hi. apply Hl. right. exact Hi.
+        * intros i Hi. apply Hl'. right. exact Hi.
+      + (* Result *) injection H as Ha Hb. unfold cs. cbn [subst_src canon].
+        cbn [src_size] in Hs. cbn [plain_src] in Hp, Hp'.
+        apply andb_prop in Hp as [Hp1 Hp2]. apply andb_prop in Hp' as [Hp1' Hp2'].
+        destruct (frag_res _ _ Hf) as [Hf1 Hf2]. destruct (frag_res _ _ Hf') as [Hf1' Hf2'].
+        f_equal.
+        * apply (IH c1 c'1); try assumption; try lia.
+          -- intros K HK. apply Hg. right. apply in_or_app. left. exact HK.
+          -- intros K HK. apply Hg'. right. apply in_or_app. left. exact HK.
+          -- intros i Hi. apply Hl. right. apply in_or_app. left. exact Hi.
+          -- intros i Hi. apply Hl'. right. apply in_or_app. left. exact Hi.
+        * apply (IH c2 c'2); try assumption; try lia.
+          -- intros K HK. apply Hg. right. apply in_or_app. right. exact HK.
+          -- intros K HK. apply Hg'. right. apply in_or_app. right. exact HK.
+          -- intros i Hi. apply Hl. right. apply in_or_app. right. exact Hi.
+          -- intros i Hi. apply Hl'. right. apply in_or_app. right. exact Hi.
+      + (* Cow *) injection H as H. unfold cs. cbn [subst_src canon]. f_equal.
+        cbn [src_size] in Hs. cbn [plain_src] in Hp, Hp'.
+        apply (IH c c'); try assumption; try lia; try (apply frag_cow; assumption).
+        * intros K HK. apply Hg. right. exact HK.
+        * intros K HK. apply Hg'. right. exact HK.
+        * intros i Hi. apply Hl. right. exact Hi.
+        * intros i Hi. apply Hl'. right. exact Hi.
+      + (* Range *) injection H as H. unfold cs. cbn [subst_src canon]. f_equal.
+        cbn [src_size] in Hs. cbn [plain_src] in Hp, Hp'.
+        apply (IH c c'); try assumption; try lia; try (apply frag_range; assumption).
         * intros K HK. apply Hg. right. exact HK.
         * intros K HK. apply Hg'. right. exact HK.
         * intros i Hi. apply Hl. right. exact Hi.
@@ -294,11 +353,15 @@ Proof.
     pose proof (inj_n pl A B Hcan Hdist Hlen (src_size c') c' c (le_n _) Hf' Hp' Hf Hp Hg' Hg Hlv' Hlv E) as E2.
     assert (y' = y) by (apply (Hinj y' y (cs B c)); congruence). subst y'. exact Hy'.
   - exfalso. assert (E : cs A c = SApp d A) by congruence.
-    destruct (frag_cases c Hf Hp) as [c Hc|i|c0 _ _|n c0 _ _|c0 _ _|ts _ _].
+    destruct (frag_cases c Hf Hp) as [c Hc|i|c0 _ _|n c0 _ _|c0 _ _|ts _ _|c0 _ _|a0 b0 _ _ _ _|c0 _ _|c0 _ _].
     + apply Hne. apply (Hinj idA y (cs B c)); [rewrite (cs_closed B A c Hc); exact Hx|exact Hy].
     + destruct (Hlv i (spine_self _)) as (nm & Hi).
       destruct (cs_param pl A Hcan Hlen i nm Hi) as (a & Ha & Hca & _).
       rewrite Hca in E. exact (arg_not_app d A i a Ha E).
+    + unfold cs in E. cbn [subst_src canon] in E. discriminate E.
+    + unfold cs in E. cbn [subst_src canon] in E. discriminate E.
+    + unfold cs in E. cbn [subst_src canon] in E. discriminate E.
+    + unfold cs in E. cbn [subst_src canon] in E. discriminate E.
     + unfold cs in E. cbn [subst_src canon] in E. discriminate E.
     + unfold cs in E. cbn [subst_src canon] in E. discriminate E.
     + unfold cs in E. cbn [subst_src canon] in E. discriminate E.
@@ -347,6 +410,52 @@ Proof.
   induction (t_params t) as [|p tps IH]; intros k; [reflexivity|]. cbn [flat_map own_params_go].
   destruct (tp_ty p); cbn [app List.length]; [f_equal|]; apply IH.
 Qed.
+
+
+(** ** [teq_def] on the prelude entries Option / Result / Cow / Range, computed *)
+Lemma opt_def rec g1 g2 tx ty e1 e2 st st' :
+  t_def tx = TDVariant [mk_variant "None" [] 0 []; mk_variant "Some" [plain_field e1] 1 []] ->
+  t_def ty = TDVariant [mk_variant "None" [] 0 []; mk_variant "Some" [plain_field e2] 1 []] ->
+  rec e1 e2 st = Ok (true, st') -> teq_def rec g1 g2 tx ty st = Ok (true, st').
+Proof.
+  intros H1 H2 Hr. unfold teq_def. rewrite H1, H2. cbn [List.length Nat.eqb negb all2 v_name v_fields].
+  rewrite !String.eqb_refl. unfold fields_equal_with at 1. cbn [List.length Nat.eqb negb all2 bind fst snd].
+  unfold fields_equal_with, compare_fields_with.
+  cbn [List.length Nat.eqb negb all2 plain_field f_name f_type_name f_ty opt_str_eqb]. rewrite Hr. reflexivity.
+Qed.
+
+Lemma res_def rec g1 g2 tx ty x1 y1 x2 y2 st st1 st2 :
+  t_def tx = TDVariant [mk_variant "Ok" [plain_field x1] 0 []; mk_variant "Err" [plain_field y1] 1 []] ->
+  t_def ty = TDVariant [mk_variant "Ok" [plain_field x2] 0 []; mk_variant "Err" [plain_field y2] 1 []] ->
+  rec x1 x2 st = Ok (true, st1) -> rec y1 y2 st1 = Ok (true, st2) -> teq_def rec g1 g2 tx ty st = Ok (true, st2).
+Proof.
+  intros H1 H2 Hr1 Hr2. unfold teq_def. rewrite H1, H2. cbn [List.length Nat.eqb negb all2 v_name v_fields].
+  rewrite !String.eqb_refl. unfold fields_equal_with, compare_fields_with.
+  cbn [List.length Nat.eqb negb all2 plain_field f_name f_type_name f_ty opt_str_eqb]. rewrite Hr1.
+  cbn [bind fst snd]. rewrite Hr2. reflexivity.
+Qed.
+
+Lemma cow_def rec g1 g2 tx ty e1 e2 st st' :
+  t_def tx = TDComposite [plain_field e1] -> t_def ty = TDComposite [plain_field e2] ->
+  rec e1 e2 st = Ok (true, st') -> teq_def rec g1 g2 tx ty st = Ok (true, st').
+Proof.
+  intros H1 H2 Hr. unfold teq_def. rewrite H1, H2. unfold fields_equal_with, compare_fields_with.
+  cbn [List.length Nat.eqb negb all2 plain_field f_name f_type_name f_ty opt_str_eqb]. rewrite Hr. reflexivity.
+Qed.
+
+Lemma range_def rec s0 g1 g2 tx ty e1 e2 st :
+  t_def tx = TDComposite [mk_field (Some "start") e1 (Some "Idx") []; mk_field (Some "end") e1 (Some "Idx") []] ->
+  t_def ty = TDComposite [mk_field (Some "start") e2 (Some "Idx") []; mk_field (Some "end") e2 (Some "Idx") []] ->
+  teq_def rec ((s0, [(e1, "Idx")]) :: g1) ((s0, [(e2, "Idx")]) :: g2) tx ty st = Ok (true, st).
+Proof.
+  intros H1 H2. unfold teq_def. rewrite H1, H2. unfold fields_equal_with, compare_fields_with.
+  cbn [List.length Nat.eqb negb all2 f_name f_type_name f_ty opt_str_eqb index_for_type_id index_for_type_name position fst snd].
+  rewrite !String.eqb_refl, !N.eqb_refl. cbn [negb opt_nat_eqb bind fst snd]. rewrite !Nat.eqb_refl. reflexivity.
+Qed.
+
+Lemma Forall2_map_both {A B C D} (f : A -> C) (g : B -> D) (R : C -> D -> Prop) la lb :
+  Forall2 (fun a b => R (f a) (g b)) la lb -> Forall2 R (map f la) (map g lb).
+Proof. induction 1; cbn [map]; constructor; auto. Qed.
 
 Section Sim.
   Variable defs : list sdef.
@@ -515,14 +624,115 @@ Section Sim.
     split; [intros K HK; apply Hg1; auto|]. split; [intros K HK; apply Hg2; auto|]. intros i Hi. apply Hlv. auto.
   Qed.
 
+  (** ** aligned GenericsLists: the same frames (start, names) binding instances of the same
+      open terms; the frame of the instantiation's own parameters is among them *)
+  Lemma inj12 c c' : PP c -> PP c' -> cs args1 c = cs args1 c' -> cs args2 c = cs args2 c'.
+  Proof.
+    intros (Hf & Hp & Hg1 & _ & Hl) (Hf' & Hp' & Hg1' & _ & Hl') H.
+    exact (inj_n pl args1 args2 canon_args1 dist1 len1 (src_size c) c c' (le_n _) Hf Hp Hf' Hp' Hg1 Hg1' Hl Hl' H).
+  Qed.
+  Lemma inj21 c c' : PP c -> PP c' -> cs args2 c = cs args2 c' -> cs args1 c = cs args1 c'.
+  Proof.
+    intros (Hf & Hp & _ & Hg2 & Hl) (Hf' & Hp' & _ & Hg2' & Hl') H.
+    exact (inj_n pl args2 args1 canon_args2 dist2 len2 (src_size c) c c' (le_n _) Hf Hp Hf' Hp' Hg2 Hg2' Hl Hl' H).
+  Qed.
+
+  Definition Re (e1 e2 : N * string) : Prop :=
+    snd e1 = snd e2 /\ exists c, PP c /\ L (fst e1) = Some (cs args1 c) /\ L (fst e2) = Some (cs args2 c).
+  Definition Rf (f1 f2 : frame) : Prop := fst f1 = fst f2 /\ Forall2 Re (snd f1) (snd f2).
+  Definition AL (g1 g2 : glist) : Prop :=
+    Forall2 Rf g1 g2 /\ forall p, In p P1 -> index_for_type_id g1 (tpi_id p) <> None.
+
+  Lemma Re_match e1 e2 c x y :
+    Re e1 e2 -> PP c -> L x = Some (cs args1 c) -> L y = Some (cs args2 c) ->
+    N.eqb (fst e1) x = N.eqb (fst e2) y.
+  Proof.
+    intros (_ & c' & HPP' & H1 & H2) HPP Hx Hy.
+    destruct (N.eqb (fst e1) x) eqn:E1; destruct (N.eqb (fst e2) y) eqn:E2; try reflexivity; exfalso.
+    - apply N.eqb_eq in E1. apply N.eqb_neq in E2. apply E2. subst x.
+      assert (H : cs args1 c' = cs args1 c) by congruence. apply (inj12 c' c HPP' HPP) in H.
+      apply (L_inj' (fst e2) y (cs args2 c)); [rewrite <- H; exact H2|exact Hy].
+    - apply N.eqb_eq in E2. apply N.eqb_neq in E1. apply E1. subst y.
+      assert (H : cs args2 c' = cs args2 c) by congruence. apply (inj21 c' c HPP' HPP) in H.
+      apply (L_inj' (fst e1) x (cs args1 c)); [rewrite <- H; exact H1|exact Hx].
+  Qed.
+
+  Lemma idx_AL g1 g2 c x y :
+    Forall2 Rf g1 g2 -> PP c -> L x = Some (cs args1 c) -> L y = Some (cs args2 c) ->
+    index_for_type_id g1 x = index_for_type_id g2 y.
+  Proof.
+    intros H HPP Hx Hy. induction H as [|[s1 en1] [s2 en2] g1 g2 (Hs & Hen) _ IH]; [reflexivity|].
+    cbn [fst snd] in Hs, Hen. subst s2. cbn [index_for_type_id].
+    rewrite (position_Forall2 Re (fun e => N.eqb (fst e) x) (fun e => N.eqb (fst e) y) en1 en2 Hen
+               (fun a b _ _ Hab => Re_match a b c x y Hab HPP Hx Hy)), IH.
+    reflexivity.
+  Qed.
+
+  Lemma PP_param i nm : nth_error pl i = Some (nm, false) -> PP (SParam i).
+  Proof.
+    intros Hi. split; [reflexivity|]. split; [reflexivity|].
+    split; [intros K [<-|[]] Hp; discriminate Hp|]. split; [intros K [<-|[]] Hp; discriminate Hp|].
+    intros j [E|[]]. inversion E; subst j. eauto.
+  Qed.
+
+  Lemma extend_start g1 g2 tps1 tps2 :
+    Forall2 Rf g1 g2 ->
+    exists s0, glist_extend g1 tps1 =
+               (s0, flat_map (fun p => match tp_ty p with Some i => [(i, tp_name p)] | None => [] end) tps1) :: g1 /\
+               glist_extend g2 tps2 =
+               (s0, flat_map (fun p => match tp_ty p with Some i => [(i, tp_name p)] | None => [] end) tps2) :: g2.
+  Proof.
+    intros H. unfold glist_extend. destruct H as [|[s1 en1] [s2 en2] g1 g2 (Hs & Hen) _].
+    - exists 0%nat. split; reflexivity.
+    - cbn [fst snd] in Hs, Hen. subst s2. rewrite (F2_length _ _ _ Hen). eexists. split; reflexivity.
+  Qed.
+
+  Lemma AL_extend g1 g2 tps1 tps2 :
+    AL g1 g2 ->
+    Forall2 Re (flat_map (fun p => match tp_ty p with Some i => [(i, tp_name p)] | None => [] end) tps1)
+               (flat_map (fun p => match tp_ty p with Some i => [(i, tp_name p)] | None => [] end) tps2) ->
+    AL (glist_extend g1 tps1) (glist_extend g2 tps2).
+  Proof.
+    intros (HF & Hown) Hen. destruct (extend_start g1 g2 tps1 tps2 HF) as (s0 & -> & ->). split.
+    - constructor; [split; [reflexivity|exact Hen]|exact HF].
+    - intros p Hp. cbn [index_for_type_id]. destruct (position _ _); [discriminate|]. apply Hown. exact Hp.
+  Qed.
+
+  Lemma AL_extend_nil g1 g2 : AL g1 g2 -> AL (glist_extend g1 []) (glist_extend g2 []).
+  Proof. intros H. apply AL_extend; [exact H|constructor]. Qed.
+
+  Lemma AL_base : AL [(0%nat, Eof P1); (0%nat, [])] [(0%nat, Eof P2); (0%nat, [])].
+  Proof.
+    split.
+    - constructor; [|constructor; [split; [reflexivity|constructor]|constructor]].
+      split; [reflexivity|]. cbn [snd]. unfold Eof. apply Forall2_map_both.
+      eapply Forall2_impl; [|exact P_paired]. intros p1 p2 (i & nm & a1 & a2 & Hi & Ha1 & Ha2 & Hl1' & Hl2' & Ho1 & Ho2).
+      split; [cbn [snd]; congruence|]. exists (SParam i). split; [eapply PP_param; eauto|]. cbn [fst].
+      destruct (cs_param pl args1 canon_args1 len1 i nm Hi) as (b1 & Hb1 & Hc1 & _).
+      destruct (cs_param pl args2 canon_args2 len2 i nm Hi) as (b2 & Hb2 & Hc2 & _).
+      split; congruence.
+    - intros p Hp. cbn [index_for_type_id]. unfold Eof. rewrite position_map. cbn [fst].
+      destruct (position_some (fun p0 => N.eqb (tpi_id p0) (tpi_id p)) P1 p Hp (N.eqb_refl _)) as (k & ->). discriminate.
+  Qed.
+
+  Lemma own_idx g1 g2 i nm x :
+    AL g1 g2 -> nth_error pl i = Some (nm, false) -> L x = Some (cs args1 (SParam i)) -> index_for_type_id g1 x <> None.
+  Proof.
+    intros (_ & Hown) Hi Hx.
+    destruct (cs_param pl args1 canon_args1 len1 i nm Hi) as (a1 & Ha1 & Hc1 & _). rewrite Hc1 in Hx.
+    destruct (parents_facts defs L r d sd args1 Hsd t1 He1) as (_ & Hb1 & _). fold P1 in Hb1.
+    destruct (Hb1 i nm a1 Hi Ha1) as (p & Hp & _ & _ & Hpl).
+    assert (tpi_id p = x) by (eapply L_inj'; eauto). subst x. apply Hown. exact Hp.
+  Qed.
+
   (** the simulation: comparing the instances of one open term of the fragment answers "equal" *)
   Lemma sim : forall n c, (src_size c <= n)%nat -> PP c ->
-    forall fuel x y g1 g2 st, GL g1 P1 -> GL g2 P2 ->
+    forall fuel x y g1 g2 st, AL g1 g2 ->
     L x = Some (cs args1 c) -> L y = Some (cs args2 c) ->
     Inv st -> vgood r st -> (List.length r + 1 <= fuel + List.length (fst st))%nat ->
     good_res st (teq r fuel x g1 y g2 st).
   Proof.
-    induction n as [|n IH]; intros c Hs HPP fuel x y g1 g2 st Hg1 Hg2 Hx Hy HI Hv Hfu;
+    induction n as [|n IH]; intros c Hs HPP fuel x y g1 g2 st HAL Hx Hy HI Hv Hfu;
       [destruct c; cbn [src_size] in Hs; lia|].
     destruct fuel as [|fuel]. { destruct Hv as [Hv _]. pose proof (good_length _ _ Hv). lia. }
     destruct st as [va vb]. cbn [fst snd] in *.
@@ -545,44 +755,57 @@ Section Sim.
     { intros res (st' & Hres & A & B & C). exists st'. split; [exact Hres|]. split; [exact A|]. split; [exact B|].
       cbn [fst List.length] in C |- *. lia. }
     destruct (entry defs L r HR x _ Hx) as (tx & Hrx & Hex). destruct (entry defs L r HR y _ Hy) as (ty & Hry & Hey).
-    rewrite Hrx, Hry. rewrite (idx_GL g1 P1 x Hg1), (idx_GL g2 P2 y Hg2).
+    rewrite Hrx, Hry. rewrite <- (idx_AL g1 g2 c x y (proj1 HAL) HPP Hx Hy).
+    destruct (index_for_type_id g1 x) as [k|] eqn:Ek.
+    { (* found at the same index on both sides *)
+      cbn [opt_nat_eqb]. rewrite Nat.eqb_refl. apply Hweak. apply good_res_refl; assumption. }
+    cbn [opt_nat_eqb].
     pose proof HPP as (Hfr & Hpl & Hgd1 & Hgd2 & Hlv).
     assert (Hbuiltin : forall t0 t0' d0 d0', builtin t0 d0 -> builtin t0' d0' ->
               negb (path_eqb (t_path t0) (t_path t0')) = false /\
               negb (Nat.eqb (List.length (param_ids t0)) (List.length (param_ids t0'))) = false /\
               glist_extend g1 (t_params t0) = glist_extend g1 [] /\ glist_extend g2 (t_params t0') = glist_extend g2 []).
     { intros t0 t0' d0 d0' (Hp & Hps & _) (Hp' & Hps' & _). rewrite !param_ids_eq, Hp, Hp', Hps, Hps'. auto. }
-    destruct (frag_cases c Hfr Hpl) as [c Hc|i|c0 Hf0 Hp0|len c0 Hf0 Hp0|c0 Hf0 Hp0|ts Hf0 Hp0].
+    assert (Hpre : forall nm e1 e2 c0, t_path tx = [nm] -> t_path ty = [nm] ->
+              forall pn, t_params tx = [mk_tparam pn (Some e1)] -> t_params ty = [mk_tparam pn (Some e2)] ->
+              PP c0 -> L e1 = Some (cs args1 c0) -> L e2 = Some (cs args2 c0) ->
+              negb (path_eqb (t_path tx) (t_path ty)) = false /\
+              negb (Nat.eqb (List.length (param_ids tx)) (List.length (param_ids ty))) = false /\
+              AL (glist_extend g1 (t_params tx)) (glist_extend g2 (t_params ty)) /\
+              exists s0, glist_extend g1 (t_params tx) = (s0, [(e1, pn)]) :: g1 /\
+                         glist_extend g2 (t_params ty) = (s0, [(e2, pn)]) :: g2).
+    { intros nm e1 e2 c0 Hp Hp' pn Hps Hps' HPP0 Hl1' Hl2'. rewrite !param_ids_eq, Hp, Hp', Hps, Hps', path_eqb_refl.
+      split; [reflexivity|]. split; [reflexivity|]. split.
+      - apply AL_extend; [exact HAL|]. cbn [flat_map tp_ty tp_name app]. constructor; [|constructor].
+        split; [reflexivity|]. exists c0. auto.
+      - destruct (extend_start g1 g2 [mk_tparam pn (Some e1)] [mk_tparam pn (Some e2)] (proj1 HAL)) as (s0 & E1 & E2).
+        exists s0. split; assumption. }
+    destruct (frag_cases c Hfr Hpl)
+      as [c Hc|i|c0 Hf0 Hp0|len c0 Hf0 Hp0|c0 Hf0 Hp0|ts Hf0 Hp0|c0 Hf0 Hp0|ca cb Hfa Hfb Hpa Hpb|c0 Hf0 Hp0|c0 Hf0 Hp0].
     - exfalso. apply Exy. apply (L_inj' x y (cs args2 c)); [rewrite (cs_closed args2 args1 c Hc)|]; assumption.
-    - destruct (Hlv i (spine_self _)) as (nm & Hi).
-      destruct (pos_pair i nm x y Hi Hx Hy) as (k & Hk1 & Hk2 & _). rewrite Hk1, Hk2.
-      cbn [opt_nat_eqb]. rewrite Nat.eqb_refl. apply Hweak. apply good_res_refl; assumption.
-    - rewrite (pos_none_good _ x Hgd1 eq_refl Hx). cbn [opt_nat_eqb].
-      unfold cs in Hex, Hey. cbn [subst_src canon entry_of] in Hex, Hey.
+    - exfalso. destruct (Hlv i (spine_self _)) as (nm & Hi). exact (own_idx g1 g2 i nm x HAL Hi Hx Ek).
+    - unfold cs in Hex, Hey. cbn [subst_src canon entry_of] in Hex, Hey.
       destruct Hex as (e1 & Hb1 & Hle1). destruct Hey as (e2 & Hb2 & Hle2).
       destruct (Hbuiltin _ _ _ _ Hb1 Hb2) as (E1 & E2 & E3 & E4). rewrite E1, E2, E3, E4.
       unfold teq_def. destruct Hb1 as (_ & _ & ->). destruct Hb2 as (_ & _ & ->).
       apply Hweak. cbn [src_size] in Hs.
-      apply (IH c0); auto using GL_extend; try lia.
+      apply (IH c0); auto using AL_extend_nil; try lia.
       apply (PP_sub (SVec c0)); auto. intros K HK. right. exact HK.
-    - rewrite (pos_none_good _ x Hgd1 eq_refl Hx). cbn [opt_nat_eqb].
-      unfold cs in Hex, Hey. cbn [subst_src canon entry_of] in Hex, Hey.
+    - unfold cs in Hex, Hey. cbn [subst_src canon entry_of] in Hex, Hey.
       destruct Hex as (e1 & Hb1 & Hle1). destruct Hey as (e2 & Hb2 & Hle2).
       destruct (Hbuiltin _ _ _ _ Hb1 Hb2) as (E1 & E2 & E3 & E4). rewrite E1, E2, E3, E4.
       unfold teq_def. destruct Hb1 as (_ & _ & ->). destruct Hb2 as (_ & _ & ->). rewrite N.eqb_refl.
       apply Hweak. cbn [src_size] in Hs.
-      apply (IH c0); auto using GL_extend; try lia.
+      apply (IH c0); auto using AL_extend_nil; try lia.
       apply (PP_sub (SArray len c0)); auto. intros K HK. right. exact HK.
-    - rewrite (pos_none_good _ x Hgd1 eq_refl Hx). cbn [opt_nat_eqb].
-      unfold cs in Hex, Hey. cbn [subst_src canon entry_of] in Hex, Hey.
+    - unfold cs in Hex, Hey. cbn [subst_src canon entry_of] in Hex, Hey.
       destruct Hex as (e1 & Hb1 & Hle1). destruct Hey as (e2 & Hb2 & Hle2).
       destruct (Hbuiltin _ _ _ _ Hb1 Hb2) as (E1 & E2 & E3 & E4). rewrite E1, E2, E3, E4.
       unfold teq_def. destruct Hb1 as (_ & _ & ->). destruct Hb2 as (_ & _ & ->).
       apply Hweak. cbn [src_size] in Hs.
-      apply (IH c0); auto using GL_extend; try lia.
+      apply (IH c0); auto using AL_extend_nil; try lia.
       apply (PP_sub (SCompactT c0)); auto. intros K HK. right. exact HK.
-    - rewrite (pos_none_good _ x Hgd1 eq_refl Hx). cbn [opt_nat_eqb].
-      rewrite cs_tup in Hex, Hey. cbn [entry_of] in Hex, Hey.
+    - rewrite cs_tup in Hex, Hey. cbn [entry_of] in Hex, Hey.
       destruct Hex as (es1 & Hb1 & Hle1). destruct Hey as (es2 & Hb2 & Hle2).
       destruct (Hbuiltin _ _ _ _ Hb1 Hb2) as (E1 & E2 & E3 & E4). rewrite E1, E2, E3, E4.
       unfold teq_def. destruct Hb1 as (_ & _ & ->). destruct Hb2 as (_ & _ & ->).
@@ -594,20 +817,57 @@ Section Sim.
       assert (Hts : forall c0, In c0 ts -> (src_size c0 <= n)%nat /\ PP c0).
       { intros c0 Hc0. split; [pose proof (sizes_In _ _ Hc0); lia|].
         apply (PP_sub (STup ts)); auto. intros K HK. right. apply in_flat_map. exists c0. split; assumption. }
-      generalize (GL_extend g1 P1 Hg1) (GL_extend g2 P2 Hg2).
-      generalize (glist_extend g1 []) (glist_extend g2 []). intros g1' g2' Hg1' Hg2'.
+      generalize (AL_extend_nil g1 g2 HAL).
+      generalize (glist_extend g1 []) (glist_extend g2 []). intros g1' g2' HAL'.
       assert (Hfu1' : (List.length r + 1 <= fuel + List.length (fst (x :: va, y :: vb)))%nat) by exact Hfu1.
-      clear - IH Hts Hle1 Hle2 HI1 Hv1 Hfu1' Hg1' Hg2'. rename Hfu1' into Hfu1.
+      clear - IH Hts Hle1 Hle2 HI1 Hv1 Hfu1' HAL'. rename Hfu1' into Hfu1.
       revert es1 es2 Hle1 Hle2 HI1 Hv1 Hfu1. generalize (x :: va, y :: vb) as st.
       induction ts as [|c0 ts IHts]; intros st es1 es2 Hle1 Hle2 HI1 Hv1 Hfu1.
       + inversion Hle1; subst. inversion Hle2; subst. cbn [all2]. apply good_res_refl; assumption.
-      + cbn [map] in Hle1, Hle2. inversion Hle1 as [|e1 ? es1' ? He1' Hr1]; subst.
-        inversion Hle2 as [|e2 ? es2' ? He2' Hr2]; subst. cbn [all2].
+      + cbn [map] in Hle1, Hle2. inversion Hle1 as [|e1 ? es1' ? He1' Hr1']; subst.
+        inversion Hle2 as [|e2 ? es2' ? He2' Hr2']; subst. cbn [all2].
         destruct (Hts c0 (or_introl eq_refl)) as (Hsz0 & HPP0).
-        destruct (IH c0 Hsz0 HPP0 fuel e1 e2 g1' g2' st Hg1' Hg2' He1' He2' HI1 Hv1 Hfu1) as (st' & Hres & A & B & C).
+        destruct (IH c0 Hsz0 HPP0 fuel e1 e2 g1' g2' st HAL' He1' He2' HI1 Hv1 Hfu1) as (st' & Hres & A & B & C).
         rewrite Hres. cbn [bind fst snd].
-        destruct (IHts (fun c' Hc' => Hts c' (or_intror Hc')) st' es1' es2' Hr1 Hr2 A B) as (st'' & Hres' & A' & B' & C'); [lia|].
+        destruct (IHts (fun c' Hc' => Hts c' (or_intror Hc')) st' es1' es2' Hr1' Hr2' A B) as (st'' & Hres' & A' & B' & C'); [lia|].
         exists st''. split; [exact Hres'|]. split; [exact A'|]. split; [exact B'|]. lia.
+    - (* Option *)
+      unfold cs in Hex, Hey. cbn [subst_src canon entry_of] in Hex, Hey.
+      destruct Hex as (e1 & Hle1 & Hp1 & Hps1 & Hd1). destruct Hey as (e2 & Hle2 & Hp2 & Hps2 & Hd2).
+      assert (HPP0 : PP c0) by (apply (PP_sub (SOpt c0)); auto; intros K HK; right; exact HK).
+      destruct (Hpre _ e1 e2 c0 Hp1 Hp2 _ Hps1 Hps2 HPP0 Hle1 Hle2) as (E1 & E2 & HAL' & _). rewrite E1, E2.
+      apply Hweak. cbn [src_size] in Hs.
+      destruct (IH c0 ltac:(lia) HPP0 fuel e1 e2 _ _ (x :: va, y :: vb) HAL' Hle1 Hle2 HI1 Hv1 Hfu1) as (st' & Hres & A & B & C).
+      exists st'. split; [|auto]. eapply opt_def; eauto.
+    - (* Result *)
+      unfold cs in Hex, Hey. cbn [subst_src canon entry_of] in Hex, Hey.
+      destruct Hex as (x1 & y1 & Hlx1 & Hly1 & Hp1 & Hps1 & Hd1). destruct Hey as (x2 & y2 & Hlx2 & Hly2 & Hp2 & Hps2 & Hd2).
+      assert (HPPa : PP ca) by (apply (PP_sub (SRes ca cb)); auto; intros K HK; right; apply in_or_app; left; exact HK).
+      assert (HPPb : PP cb) by (apply (PP_sub (SRes ca cb)); auto; intros K HK; right; apply in_or_app; right; exact HK).
+      rewrite Hp1, Hp2, path_eqb_refl, !param_ids_eq, Hps1, Hps2. cbn [flat_map tp_ty app List.length Nat.eqb negb].
+      assert (HAL' : AL (glist_extend g1 [mk_tparam "T" (Some x1); mk_tparam "E" (Some y1)])
+                        (glist_extend g2 [mk_tparam "T" (Some x2); mk_tparam "E" (Some y2)])).
+      { apply AL_extend; [exact HAL|]. cbn [flat_map tp_ty tp_name app].
+        constructor; [split; [reflexivity|exists ca; auto]|constructor; [split; [reflexivity|exists cb; auto]|constructor]]. }
+      apply Hweak. cbn [src_size] in Hs.
+      destruct (IH ca ltac:(lia) HPPa fuel x1 x2 _ _ (x :: va, y :: vb) HAL' Hlx1 Hlx2 HI1 Hv1 Hfu1) as (st1 & Hres1 & A1 & B1 & C1).
+      cbn [fst List.length] in C1, Hfu1.
+      destruct (IH cb ltac:(lia) HPPb fuel y1 y2 _ _ st1 HAL' Hly1 Hly2 A1 B1) as (st2 & Hres2 & A2 & B2 & C2); [lia|].
+      exists st2. split; [eapply res_def; eauto|]. split; [exact A2|]. split; [exact B2|cbn [fst List.length]; lia].
+    - (* Cow *)
+      unfold cs in Hex, Hey. cbn [subst_src canon entry_of] in Hex, Hey.
+      destruct Hex as (e1 & Hle1 & Hp1 & Hps1 & Hd1). destruct Hey as (e2 & Hle2 & Hp2 & Hps2 & Hd2).
+      assert (HPP0 : PP c0) by (apply (PP_sub (SCow c0)); auto; intros K HK; right; exact HK).
+      destruct (Hpre _ e1 e2 c0 Hp1 Hp2 _ Hps1 Hps2 HPP0 Hle1 Hle2) as (E1 & E2 & HAL' & _). rewrite E1, E2.
+      apply Hweak. cbn [src_size] in Hs.
+      destruct (IH c0 ltac:(lia) HPP0 fuel e1 e2 _ _ (x :: va, y :: vb) HAL' Hle1 Hle2 HI1 Hv1 Hfu1) as (st' & Hres & A & B & C).
+      exists st'. split; [|auto]. eapply cow_def; eauto.
+    - (* Range: decided by the recorded name "Idx" of both fields *)
+      unfold cs in Hex, Hey. cbn [subst_src canon entry_of] in Hex, Hey.
+      destruct Hex as (e1 & Hle1 & Hp1 & Hps1 & Hd1). destruct Hey as (e2 & Hle2 & Hp2 & Hps2 & Hd2).
+      assert (HPP0 : PP c0) by (apply (PP_sub (SRange c0)); auto; intros K HK; right; exact HK).
+      destruct (Hpre _ e1 e2 c0 Hp1 Hp2 _ Hps1 Hps2 HPP0 Hle1 Hle2) as (E1 & E2 & _ & s0 & G1' & G2'). rewrite E1, E2, G1', G2'.
+      apply Hweak. rewrite (range_def _ s0 g1 g2 tx ty e1 e2 _ Hd1 Hd2). apply good_res_refl; assumption.
   Qed.
 
   (** ** the fields of the two entries *)
@@ -647,7 +907,7 @@ Section Sim.
       rewrite <- Enm, Hk'. cbn [opt_nat_eqb]. rewrite Nat.eqb_refl. apply good_res_refl; assumption.
     - pose proof HPP as (_ & _ & Hgd1 & _).
       rewrite (pos_none_good _ _ Hgd1 Ep Hlab1).
-      apply (sim (src_size (sf_ty sf)) (sf_ty sf) (le_n _) HPP fuel (f_ty f1) (f_ty f2)); auto using GL_base.
+      apply (sim (src_size (sf_ty sf)) (sf_ty sf) (le_n _) HPP fuel (f_ty f1) (f_ty f2)); auto using AL_base.
   Qed.
 
   Lemma sim_fields fuel : forall fs fl1 fl2 st,
